@@ -771,3 +771,235 @@ func c05Retry(cfg *runCfg, r *rand.Rand, cf *casesFile, m *meta, dist map[string
 	cf.result("M_retry", "c05_retry_mismatches retry_cases")
 	return len(cases), nil
 }
+
+// ---------------------------------------------------------------- long length-prefixed fields
+
+var c05LongLens = []int{65534, 65535, 65536, 65537, 70000, 131072, 131073}
+
+// c05AZ: n letters, the alphabet from letter k on, cyclically (printed by c05Z as "az k n")
+func c05AZ(k, n int) []byte {
+	b := make([]byte, n)
+	for i := range b {
+		b[i] = byte('a' + (k+i)%26)
+	}
+	return b
+}
+
+// c05Guard runs f; a panic of the library (e.g. "string length overflow") is returned, not propagated.
+func c05Guard(f func() error) (err error, panicked interface{}) {
+	defer func() {
+		if r := recover(); r != nil {
+			panicked = r
+		}
+	}()
+	return f(), nil
+}
+
+func c05Outcome(err error, panicked interface{}) string {
+	switch {
+	case panicked != nil:
+		return fmt.Sprintf("panic: %v", panicked)
+	case err != nil:
+		s := err.Error()
+		if len(s) > 120 {
+			s = s[:120]
+		}
+		return "error: " + s
+	}
+	return "nil"
+}
+
+func c05WaitClosed(cli *mqtt.BaseClient) {
+	cli.Close()
+	select {
+	case <-cli.Done():
+	case <-time.After(20 * time.Second):
+	}
+}
+
+// Connect with the given options; every packet handed to the transport, and how the call ended.
+func c05ConnectLong(c c05Conn) (writes [][]byte, outcome string) {
+	conn := newMemConn(1, nil)
+	conn.onWrite = func(mc *memConn, pkt []byte) error {
+		if pkt[0]&0xF0 == 0x10 {
+			mc.send(connackOK)
+		}
+		return nil
+	}
+	cli := &mqtt.BaseClient{Transport: conn}
+	opts := []mqtt.ConnectOption{mqtt.WithKeepAlive(uint16(c.KeepAlive)), mqtt.WithCleanSession(c.Clean)}
+	if len(c.User) > 0 || len(c.Pass) > 0 {
+		opts = append(opts, mqtt.WithUserNamePassword(string(c.User), string(c.Pass)))
+	}
+	if c.Will != nil {
+		opts = append(opts, mqtt.WithWill(&mqtt.Message{Topic: string(c.Will.Topic), Payload: c.Will.Payload, QoS: mqtt.QoS(c.Will.QoS), Retain: c.Will.Retain}))
+	}
+	ctx, cancel := ctxTimeout(20 * time.Second)
+	defer cancel()
+	err, pan := c05Guard(func() error {
+		_, err := cli.Connect(ctx, string(c.ClientID), opts...)
+		return err
+	})
+	c05WaitClosed(cli)
+	conn.mu.Lock()
+	defer conn.mu.Unlock()
+	for _, w := range conn.writes {
+		writes = append(writes, append([]byte{}, w...))
+	}
+	return writes, c05Outcome(err, pan)
+}
+
+// a request on a connected session whose peer acknowledges; nSubs = number of SUBACK codes to grant
+func c05SessionLong(nSubs int, f func(ctx context.Context, cli *mqtt.BaseClient) error) (writes [][]byte, outcome string, err error) {
+	s, err := newSession(false, func(s *session, pkt []byte) {
+		switch pkt[0] & 0xF0 {
+		case 0x80, 0xA0:
+			// the identifier follows the remaining length; the list is not parsed (it may be malformed)
+			i := 1
+			for i < len(pkt) && pkt[i]&0x80 != 0 {
+				i++
+			}
+			i++
+			if i+2 > len(pkt) {
+				return
+			}
+			if pkt[0]&0xF0 == 0xA0 {
+				s.conn.send([]byte{0xB0, 2, pkt[i], pkt[i+1]})
+				return
+			}
+			s.conn.send(encFrame(0x90, append([]byte{pkt[i], pkt[i+1]}, make([]byte, nSubs)...)))
+		default:
+			func() {
+				defer func() { _ = recover() }()
+				if ack := c05AckBytes(pkt); ack != nil {
+					s.conn.send(ack)
+				}
+			}()
+		}
+	})
+	if err != nil {
+		return nil, "", err
+	}
+	ctx, cancel := ctxTimeout(20 * time.Second)
+	defer cancel()
+	e, pan := c05Guard(func() error { return f(ctx, s.cli) })
+	for _, ev := range s.snapshot() {
+		if ev.Kind == "write" {
+			writes = append(writes, ev.Pkt)
+		}
+	}
+	c05WaitClosed(s.cli)
+	return writes, c05Outcome(e, pan), nil
+}
+
+func c05Long(cfg *runCfg, r *rand.Rand, cf *casesFile, m *meta, dist map[string]int) (int, error) {
+	var cases []string
+	slow := 0
+	add := func(req string, desc string, writes [][]byte, outcome string) {
+		var ws, hx []string
+		for _, w := range writes {
+			ws = append(ws, c05Z(w))
+			hx = append(hx, c05Hex(w))
+		}
+		if strings.Contains(outcome, "context") {
+			slow++
+		}
+		cases = append(cases, cTuple("("+req+")", cBool(outcome != "nil"), cListInline(ws)))
+		fc := map[string]interface{}{"request": desc, "outcome": outcome, "written": hx}
+		m.Families["long"] = append(m.Families["long"], fc)
+		if len(m.Families["long"]) == 9 {
+			m.Samples = append(m.Samples, fc)
+		}
+	}
+	// CONNECT fields
+	for fi, field := range []string{"client id", "will topic", "will payload", "user name", "password"} {
+		for _, L := range c05LongLens {
+			if slow >= 3 {
+				continue
+			}
+			long := c05AZ(r.Intn(26), L)
+			c := c05Conn{Level: 4, KeepAlive: 60, Clean: fi%2 == 0, ClientID: []byte("cid")}
+			switch field {
+			case "client id":
+				c.ClientID = long
+				c.User = []byte("u")
+			case "will topic":
+				c.Will = &inMsg{Topic: long, Payload: []byte{1, 2, 3}, QoS: byte(L % 3), Retain: L%2 == 0}
+			case "will payload":
+				c.Will = &inMsg{Topic: []byte("w/t"), Payload: long, QoS: byte(L % 3), Retain: L%2 == 1}
+				c.User, c.Pass = []byte("user"), []byte("pw")
+			case "user name":
+				c.User, c.Pass = long, []byte("pw")
+			default:
+				c.User, c.Pass = []byte("user"), long
+			}
+			writes, outcome := c05ConnectLong(c)
+			add("LConn "+c.coq(), fmt.Sprintf("Connect with a %s of %d bytes", field, L), writes, outcome)
+			dist["long_connect_fields"]++
+		}
+	}
+	// SUBSCRIBE / UNSUBSCRIBE: the long filter at every position
+	for _, shape := range [][2]int{{1, 0}, {3, 0}, {3, 1}, {3, 2}} {
+		for _, L := range c05LongLens {
+			if slow >= 3 {
+				continue
+			}
+			n, pos := shape[0], shape[1]
+			var subs []mqtt.Subscription
+			var topics []string
+			var cs, ts []string
+			for i := 0; i < n; i++ {
+				t := []byte([]string{"a/+", "b/#", "c"}[i])
+				if i == pos {
+					t = c05AZ(r.Intn(26), L)
+				}
+				q := byte((i + pos + L) % 3)
+				subs = append(subs, mqtt.Subscription{Topic: string(t), QoS: mqtt.QoS(q)})
+				topics = append(topics, string(t))
+				cs = append(cs, cTuple(c05Z(t), fmt.Sprint(q)))
+				ts = append(ts, c05Z(t))
+			}
+			writes, outcome, err := c05SessionLong(n, func(ctx context.Context, cli *mqtt.BaseClient) error {
+				_, err := cli.Subscribe(ctx, append([]mqtt.Subscription{}, subs...)...)
+				return err
+			})
+			if err != nil {
+				return 0, err
+			}
+			add("LSub "+cListInline(cs), fmt.Sprintf("Subscribe to %d filters, filter #%d of %d bytes", n, pos, L), writes, outcome)
+			writes, outcome, err = c05SessionLong(n, func(ctx context.Context, cli *mqtt.BaseClient) error {
+				return cli.Unsubscribe(ctx, topics...)
+			})
+			if err != nil {
+				return 0, err
+			}
+			add("LUnsub "+cListInline(ts), fmt.Sprintf("Unsubscribe from %d filters, filter #%d of %d bytes", n, pos, L), writes, outcome)
+			dist["long_subscribe_unsubscribe_filters"] += 2
+		}
+	}
+	// PUBLISH topic
+	for li, L := range c05LongLens {
+		qoss := []byte{byte(li % 3)}
+		if L == 65535 || L == 65536 {
+			qoss = []byte{0, 1, 2}
+		}
+		for _, qos := range qoss {
+			if slow >= 3 {
+				continue
+			}
+			msg := &mqtt.Message{Topic: string(c05AZ(r.Intn(26), L)), Payload: []byte{7, 8, 9}, QoS: mqtt.QoS(qos), Retain: L%2 == 0}
+			writes, outcome, err := c05SessionLong(0, func(ctx context.Context, cli *mqtt.BaseClient) error {
+				return cli.Publish(ctx, msg)
+			})
+			if err != nil {
+				return 0, err
+			}
+			add("LPub "+c05Msg([]byte(msg.Topic), msg.ID, qos, msg.Retain, false, msg.Payload), fmt.Sprintf("Publish QoS%d with a topic of %d bytes", qos, L), writes, outcome)
+			dist["long_publish_topics"]++
+		}
+	}
+	cf.def("long_cases", "list (lreq * bool * list (list N))", cList(cases))
+	cf.result("V_long", "c05_long_violations long_cases")
+	cf.result("M_long", "c05_long_mismatches long_cases")
+	return len(cases), nil
+}
